@@ -66,6 +66,8 @@ Conf(row) ==
                           /\ row.ud = ESDTUserMetadataFromBytes(row.b).frozen
     [] row.k = "enc" -> Ok(row) /\ row.ce = CodeMetadataToBytes(CMOf(row.m)) /\ row.ge = ESDTGlobalMetadataToBytes([paused |-> row.m[1]])
                         /\ row.ue = ESDTUserMetadataToBytes([frozen |-> row.m[2]])
+    [] row.k = "rdata" -> Ok(row) /\ FirstReturnDataOK(row.rd, row.kind, row.err, row.v, row.vs)
+    [] row.k = "rcode" -> Ok(row) /\ row.vs = ReturnCodeName(row.kind)
     [] row.k = "merge" -> Ok(row) /\ NoBad(O0(row), A0(row), row.o1) /\ NoBad(row.o1, C0(row), row.o2)
                           /\ SameAcct(row.o1, MergeOutputAccounts(O0(row), A0(row))) /\ SameAcct(row.o2, MergeOutputAccounts(row.o1, C0(row)))
     [] OTHER -> TRUE
